@@ -1,5 +1,17 @@
-from . import AbstractStorage
+"""EncryptedCookieStorage stand-in: same load/save behaviour as the real class, with an opaque (base64)
+encoding instead of Fernet encryption -- the cookie is a blob the browser stores and returns."""
+import base64
+
+from . import SimpleCookieStorage
 
 
-class EncryptedCookieStorage(AbstractStorage):
-    pass
+class EncryptedCookieStorage(SimpleCookieStorage):
+    def __init__(self, secret_key=None, **kwargs):
+        super().__init__(**kwargs)
+        self._secret_key = secret_key
+
+    def _dumps(self, session):
+        return base64.urlsafe_b64encode(super()._dumps(session).encode('utf-8')).decode('ascii')
+
+    def _loads(self, cookie):
+        return self._decoder(base64.urlsafe_b64decode(cookie.encode('ascii')).decode('utf-8'))
